@@ -363,6 +363,43 @@ func runCheck(prop, tier string, writeLock bool) int {
 		}(o)
 	}
 	wg.Wait()
+	// Second chance for undecided obligations: a timeout under machine load is not a refutation. Obligations that
+	// ended without an answer (no solver said sat) are solved again, few at a time, with a longer timeout. Only what
+	// is still undecided after that is reported.
+	{
+		var retry []*Obligation
+		for _, o := range allObls {
+			if o.Cover || o.SMTFile == "" {
+				continue
+			}
+			if o.Res.Status == "unknown" || o.Res.Status == "timeout" {
+				retry = append(retry, o)
+			}
+		}
+		if len(retry) > 0 && len(retry) <= 40 && os.Getenv("VERIF_NORETRY") == "" {
+			rsem := make(chan struct{}, 3)
+			var rwg sync.WaitGroup
+			for _, o := range retry {
+				rwg.Add(1)
+				go func(o *Obligation) {
+					defer rwg.Done()
+					rsem <- struct{}{}
+					defer func() { <-rsem }()
+					gfn := strings.TrimSuffix(o.SMTFile, ".smt2") + ".ground.smt2"
+					if _, err := os.Stat(gfn); err != nil {
+						gfn = ""
+					}
+					ts := time.Now()
+					first := o.Res
+					o.Res = solveVariants(o.SMTFile, gfn, timeout*4, seed, true)
+					o.Res.TimeS += first.TimeS
+					o.WallS += time.Since(ts).Seconds()
+					o.Retried = true
+				}(o)
+			}
+			rwg.Wait()
+		}
+	}
 	sort.Slice(allObls, func(i, j int) bool { return allObls[i].Name < allObls[j].Name })
 
 	var kf KnownFindings
